@@ -79,6 +79,13 @@ CHECKS = {
             "Trusted: transfer.py; names without parentheses (output label format). Tables are compared at the transferred vector, "
             "so non-unique optima cannot raise an alarm.",
             "DESIGN.md 5 C09"),
+    "C10": ("model-based testing of generated operation histories (Hypothesis-generated operation lists interpreted on live objects; model = the same call on objects rebuilt from the pristine spec)",
+            "Exploration over histories: sequences of set-up / split set-up / fix-window / optimise / extract / serialise-reload / "
+            "cost-sample calls on the same live assets, portfolio, Timegrid objects and price containers, interleaved with "
+            "different horizons, zones, frequencies and units; after every step the live result must equal the result of "
+            "fresh objects and the caller's price data must be untouched.",
+            "Trusted: the fresh-object call is the model (also for expected exceptions). The operation list is the shrinkable replay.",
+            "DESIGN.md 5 C10"),
     "C11": ("property-based testing (Hypothesis): round trip to_json / load_from_json with differential set-up against a fresh original",
             "Exploration: every asset class (incl. scaled, structured, linked, CHP variants, order book in both forms) with "
             "every parameter form, naive and zone-aware stamps, stand-alone or in a portfolio with own grid, saved before or "
